@@ -1,0 +1,52 @@
+//go:build verif
+
+// Contracts for govc (contract-based deductive verification, see /verif/DESIGN.md).
+// Comment-only file: it contains no code and is compiled only under the verif tag.
+
+package tan
+
+// ---------------------------------------------------------------- tan index (C09)
+
+//@ func (e *indexEntry) merge [C09]
+//@ requires e.end < MaxUint64 && e.pos >= 0 && n.pos >= 0 && e.length >= 0 && n.length >= 0 && e.pos + e.length < 4611686018427387904 && n.length < 4611686018427387904
+//@ ensures result2 == (e.end + 1 == n.start && e.pos + e.length == n.pos && e.fileNum == n.fileNum && e.pos / 131072 == n.pos / 131072)
+//@ ensures result2 ==> result0.start == e.start && result0.end == n.end && result0.fileNum == e.fileNum && result0.pos == e.pos && result0.length == e.length + n.length
+//@ ensures !result2 ==> result0 == *e && result1 == n
+
+// update of the last index entry e by a newly written range n: a write at n.start logically
+// truncates everything at and above n.start
+//@ func (e *indexEntry) update [C09]
+//@ requires e.start <= e.end && n.start <= n.end && e.end < MaxUint64 && n.start > 0 && e.pos >= 0 && n.pos >= 0 && e.length >= 0 && n.length >= 0 && e.pos + e.length < 4611686018427387904 && n.length < 4611686018427387904
+//@ ensures result2 ==> result0.end == n.end && result0.start <= n.start && result0.start <= result0.end && result0.pos >= 0 && result0.length >= 0 && result0.pos + result0.length < 4611686018427387904
+//@ requires n.pos + n.length < 4611686018427387904
+//@ ensures result2 && !result3 ==> result0.start == e.start || result0 == n
+// merged into one entry covering [e.start, n.end]
+//@ ensures result2 && !result3 && n.start == e.end + 1 ==> result0.start == e.start && result0.end == n.end
+// same start: the new range replaces the old one
+//@ ensures n.start == e.start ==> result2 && !result3 && result0 == n
+// starts below: the old entry disappears entirely and the caller must continue with the entries before it
+//@ ensures n.start < e.start ==> result2 && result3 && result0 == n
+// partial overwrite: the old entry keeps [e.start, n.start-1], the new one follows
+//@ ensures n.start > e.start && n.start <= e.end ==> !result2 && !result3 && result0.start == e.start && result0.end == n.start - 1 && result1 == n
+// strictly after (not mergeable): both kept
+//@ ensures n.start > e.end && !result2 ==> !result3 && result0 == *e && result1 == n
+//@ ensures result3 ==> n.start < e.start
+//@ ensures !result2 ==> result1 == n && result0.start == e.start && result0.end < n.start && result0.pos == e.pos && result0.length == e.length && result0.fileNum == e.fileNum && result0.start <= result0.end
+
+//@ pred (i *index) sorted() := (forall j int :: 0 <= j && j < len(i.entries) ==> i.entries[j].start <= i.entries[j].end && i.entries[j].start > 0 && i.entries[j].end < MaxUint64 &&
+//@      i.entries[j].pos >= 0 && i.entries[j].length >= 0 && i.entries[j].pos + i.entries[j].length < 4611686018427387904) &&
+//@   (forall j int :: 0 <= j && j < len(i.entries) - 1 ==> i.entries[j].end < i.entries[j + 1].start)
+
+//@ func (i *index) update [C09]
+//@ noframe
+//@ requires i.sorted() && e.start <= e.end && e.start > 0 && e.end < MaxUint64 && e.pos >= 0 && e.length >= 0 && e.pos + e.length < 4611686018427387904
+//@ modifies i.entries, elems(i.entries)
+//@ ensures i.sorted() && len(i.entries) >= 1
+// the log now ends exactly where the new range ends ...
+//@ ensures i.entries[len(i.entries) - 1].end == e.end
+// ... and nothing at or above e.start other than the new range survives
+//@ ensures len(i.entries) >= 2 ==> i.entries[len(i.entries) - 2].end < e.start
+//@ ensures i.entries[len(i.entries) - 1].start <= e.start
+// entries strictly below the new range are untouched
+//@ ensures len(i.entries) <= old(len(i.entries)) + 1
+
